@@ -9,10 +9,11 @@
 EXTENDS D42ValueUniverse, D42TraceBase
 
 Verdict(e) ==
-  IF ~IsPlain(e.v)
+  IF HasForeign(e.v)
   THEN IF e.exc = "ValueError" THEN "OK"
        ELSE IF e.exc = "" THEN "FAIL:non_plain_value_converted:"
        ELSE "FAIL:non_plain_value_wrong_exception:"
+  ELSE IF ~IsPlain(e.v) THEN "SKIP:instance_of_a_subclass"
   ELSE IF e.exc # "" THEN "FAIL:plain_value_refused:"
   ELSE IF ~e.acc THEN "FAIL:result_rejects_its_own_value:"
   ELSE IF \E j \in DOMAIN e.gens : e.gens[j].exc # "" \/ ~e.gens[j].rep \/ Get(e.gens[j].w) # e.v
